@@ -22,8 +22,10 @@ pub enum Step {
     /// one simulated process start (`simnode`)
     Start { session: Session },
     /// one simulated process start while *another running instance* holds the index writer lock of
-    /// the data directory for `hold_ms` milliseconds of real time (taken before this start begins;
-    /// if the directory holds no index that opens there is nothing to hold and this is a plain start)
+    /// the data directory: taken before this start begins, released when this start has ended or
+    /// after `hold_ms` milliseconds of real time, whichever comes first (so a start that gives up at
+    /// the busy lock costs no waiting, and one that waits for the lock gets it after `hold_ms`); if
+    /// the directory holds no index that opens there is nothing to hold and this is a plain start
     Contended { hold_ms: u64, session: Session },
     /// the real `any` program; `query` is the text, `exact`/`describe` the flags; `env` may carry
     /// ANYTHING_VERIF_KILL_AT / ANYTHING_VERIF_FAIL_AT (the hook module's built-in injector)
@@ -382,20 +384,29 @@ fn run_history_once(ctx: &Ctx, h: &History, work: &Path, rotate: usize) -> Trace
                         // the other instance first; this start begins once it holds the lock (or has
                         // found nothing to hold)
                         let marker = xdg.root.join(".verif-holding");
+                        let release = xdg.root.join(".verif-release");
                         let _ = std::fs::remove_file(&marker);
-                        let holder = Session { cpus: 1, faults: vec![], ops: vec![Op::HoldWriter { ms }], expected_docs: 0, repo: s.repo.clone(), alt: false, ver: false, ren: false, env: vec![], rand: 1 };
+                        let _ = std::fs::remove_file(&release);
+                        let holder = Session { cpus: 1, faults: vec![], ops: vec![Op::HoldWriter { ms: ms + 60_000 }], expected_docs: 0, repo: s.repo.clone(), alt: false, ver: false, ren: false, env: vec![], rand: 1 };
                         let (out, held) = std::thread::scope(|sc| {
                             let hj = sc.spawn(|| ctx.launcher.simnode(&xdg, work, &format!("h{i}"), &holder, rotate));
                             let t0 = std::time::Instant::now();
                             while !marker.exists() && !hj.is_finished() && t0.elapsed() < std::time::Duration::from_secs(20) {
                                 std::thread::sleep(std::time::Duration::from_millis(5));
                             }
-                            let out = launcher.simnode(&xdg, work, &format!("s{i}"), &s, rotate);
+                            let sj = sc.spawn(|| launcher.simnode(&xdg, work, &format!("s{i}"), &s, rotate));
+                            let t1 = std::time::Instant::now();
+                            while !sj.is_finished() && t1.elapsed() < std::time::Duration::from_millis(ms) {
+                                std::thread::sleep(std::time::Duration::from_millis(5));
+                            }
+                            let _ = std::fs::write(&release, b"");
+                            let out = sj.join().unwrap_or_else(|_| ChildOut { exit: Exit::SpawnFailed { why: "session thread panicked".into() }, events: vec![], stdout: String::new(), stderr: String::new() });
                             let hout = hj.join().unwrap_or_else(|_| ChildOut { exit: Exit::SpawnFailed { why: "holder thread panicked".into() }, events: vec![], stdout: String::new(), stderr: String::new() });
                             let held = hout.events.iter().any(|e| matches!(e, Event::Held { held: true, .. }));
                             (out, held)
                         });
                         let _ = std::fs::remove_file(&marker);
+                        let _ = std::fs::remove_file(&release);
                         let mut out = out;
                         // the held lock "fired" when this start could not do what it set out to do
                         let failed = out.exit != (Exit::Code { code: 0 }) || builds(&out).iter().any(|b| b.error.is_some());
